@@ -219,6 +219,77 @@ fn run_wake_case(line: &str) -> String {
     out.join(" ")
 }
 
+/// block_on with a future that asks for a stop from inside one of its polls (C11: a stop request issued after block_on began is
+/// never lost). Case: script of poll outcomes, p = Pending after waking itself, s = calls stop() and wakeup() and returns Pending.
+/// block_on must return None right after the poll that asked for the stop; a watchdog rescues a hung loop after 1.5 s.
+fn run_stop_case(line: &str) -> String {
+    use std::cell::Cell;
+    use std::future::Future;
+    use std::pin::Pin;
+    use std::rc::Rc;
+    use std::task::{Context, Poll};
+    struct Scripted {
+        script: Vec<u8>,
+        idx: Rc<Cell<usize>>,
+        signal: calloop::LoopSignal,
+    }
+    impl Future for Scripted {
+        type Output = u8;
+        fn poll(self: Pin<&mut Self>, cx: &mut Context<'_>) -> Poll<u8> {
+            let k = self.idx.get();
+            self.idx.set(k + 1);
+            match self.script.get(k).copied() {
+                Some(b's') => {
+                    self.signal.stop();
+                    self.signal.wakeup();
+                    Poll::Pending
+                }
+                Some(b'p') => {
+                    cx.waker().wake_by_ref();
+                    Poll::Pending
+                }
+                _ => Poll::Ready(1),
+            }
+        }
+    }
+    let mut event_loop: EventLoop<'static, ()> = EventLoop::try_new().expect("loop");
+    let signal = event_loop.get_signal();
+    let polls = Rc::new(Cell::new(0usize));
+    let fut = Scripted { script: line.trim().bytes().collect(), idx: polls.clone(), signal: signal.clone() };
+    let rescued = std::sync::Arc::new(std::sync::atomic::AtomicBool::new(false));
+    let done = std::sync::Arc::new(std::sync::atomic::AtomicBool::new(false));
+    let (r2, d2, s2) = (rescued.clone(), done.clone(), signal.clone());
+    let dog = std::thread::spawn(move || {
+        for _ in 0..150 {
+            std::thread::sleep(std::time::Duration::from_millis(10));
+            if d2.load(std::sync::atomic::Ordering::SeqCst) {
+                return;
+            }
+        }
+        r2.store(true, std::sync::atomic::Ordering::SeqCst);
+        s2.stop();
+        s2.wakeup();
+    });
+    let t0 = std::time::Instant::now();
+    let r = event_loop.block_on(fut, &mut (), |_| {});
+    let el = t0.elapsed().as_millis();
+    done.store(true, std::sync::atomic::Ordering::SeqCst);
+    let _ = dog.join();
+    let res = match r {
+        Ok(Some(_)) => "SOME",
+        Ok(None) => "NONE",
+        Err(_) => "ERR",
+    };
+    format!("{} polls={} rescued={} ms={}", res, polls.get(), rescued.load(std::sync::atomic::Ordering::SeqCst) as u8, el)
+}
+
+pub fn run_stop() {
+    crate::for_each_line(|l| {
+        let r = std::panic::catch_unwind(|| run_stop_case(l)).unwrap_or_else(|_| "PANIC".to_string());
+        println!("{}", r);
+    });
+}
+
 pub fn run_wake() {
     crate::for_each_line(|l| {
         let r = std::panic::catch_unwind(|| run_wake_case(l)).unwrap_or_else(|_| "PANIC".to_string());
